@@ -1,4 +1,5 @@
 import JjModel.Lemmas.OpHeads
+import JjModel.Lemmas.OpHeadsRun
 /-!
   C14 — the operation-head store never loses a published operation.
 
@@ -62,12 +63,9 @@ def resolveOutcome (G : Dag) (hs : List Nat) (new : Nat) : Option (Nat × List N
   | [] => none
   | [h] => some (h, [h])
   | _ =>
-    match filterHeads G hs with
-    | [h] => some (h, applyUpdate hs h ((ancestorHeads G hs).map fun o => (true, o)))
-    | f =>
-      if new < G.length && !hs.contains new && sameSet (parents G new) f
-      then some (new, applyUpdate hs new ((ancestorHeads G hs ++ parents G new).map fun o => (true, o)))
-      else none
+    match resolvePlan G hs [new] with
+    | none => none
+    | some (t, olds) => some (t, applyUpdate hs t (olds.map fun o => (true, o)))
 
 theorem mem_pending_true {t o : Nat} {olds : List Nat} :
     o ∈ pending t (olds.map fun x => (true, x)) ↔ o ∈ olds ∧ o ≠ t := by
@@ -124,66 +122,136 @@ theorem quiescent_single_head {G : Dag} (hw : WF G) {hs pub : List Nat} {new r :
     simp only [List.mem_singleton] at hh
     subst hh; exact ha
   · split at hr
-    · rename_i h hf
+    · simp at hr
+    · rename_i t olds hpl
       simp only [Option.some.injEq, Prod.mk.injEq] at hr
       obtain ⟨e1, e2⟩ := hr
       subst e1; subst e2
-      have hrf : h ∈ filterHeads G hs := by rw [hf]; simp
-      have hmem : ∀ x, x ∈ applyUpdate hs h ((ancestorHeads G hs).map fun o => (true, o)) ↔ x = h := by
+      have hanc := resolvePlan_anc hw hpl
+      -- every listed head is `t` or is removed; `t` itself is never removed
+      have hall : ∀ x ∈ hs, x = t ∨ x ∈ olds := by
+        intro x hx
+        rcases resolvePlan_cases hpl with ⟨hf, rfl⟩ | ⟨_, _, _, hss, rfl⟩
+        · rcases mem_filter_or_ancestor (G := G) hx with h1 | h1
+          · rw [hf] at h1; exact Or.inl (by simpa using h1)
+          · exact Or.inr h1
+        · right
+          rcases mem_filter_or_ancestor (G := G) hx with h1 | h1
+          · exact List.mem_append_right _ (mem_of_sameSet_left hss h1)
+          · exact List.mem_append_left _ h1
+      have hmem : ∀ x, x ∈ applyUpdate hs t (olds.map fun o => (true, o)) ↔ x = t := by
         intro x
         rw [mem_applyUpdate, mem_pending_true]
         constructor
         · rintro ⟨hx, hn⟩
           rcases hx with rfl | hx
           · rfl
-          · rcases mem_filter_or_ancestor (G := G) hx with h1 | h1
-            · rw [hf] at h1; simpa using h1
-            · by_cases e : x = h
+          · rcases hall x hx with e | ho
+            · exact e
+            · by_cases e : x = t
               · exact e
-              · exact absurd ⟨h1, e⟩ hn
+              · exact absurd ⟨ho, e⟩ hn
         · rintro rfl
           exact ⟨Or.inl rfl, fun hh => hh.2 rfl⟩
       refine ⟨eq_singleton_of_nodup (nodup_applyUpdate hnd) hmem, fun p hp => ?_⟩
       obtain ⟨hd, hh, ha⟩ := hcov p hp
-      obtain ⟨f, hfm, hfa⟩ := filtered_above hw hh
-      rw [hf] at hfm
-      simp only [List.mem_singleton] at hfm
-      subst hfm
-      exact anc_trans ha hfa
-    · split at hr
-      · rename_i hc
-        simp only [Bool.and_eq_true, Bool.not_eq_true', decide_eq_true_eq] at hc
-        obtain ⟨⟨hlt, hnc⟩, hss⟩ := hc
-        simp only [Option.some.injEq, Prod.mk.injEq] at hr
-        obtain ⟨e1, e2⟩ := hr
-        subst e1; subst e2
-        have hnh : new ∉ hs := by
-          intro hm
-          have hc' := List.contains_iff_mem.mpr hm
-          simp only [hc'] at hnc
-          exact absurd hnc (by simp)
-        have hmem : ∀ x, x ∈ applyUpdate hs new ((ancestorHeads G hs ++ parents G new).map fun o => (true, o)) ↔ x = new := by
-          intro x
-          rw [mem_applyUpdate, mem_pending_true]
-          constructor
-          · rintro ⟨hx, hn⟩
-            rcases hx with rfl | hx
-            · rfl
-            · by_cases e : x = new
-              · exact e
-              · exfalso
-                apply hn
-                refine ⟨?_, e⟩
-                rcases mem_filter_or_ancestor (G := G) hx with h1 | h1
-                · exact List.mem_append_right _ (mem_of_sameSet_left hss h1)
-                · exact List.mem_append_left _ h1
-          · rintro rfl
-            exact ⟨Or.inl rfl, fun hh => hh.2 rfl⟩
-        refine ⟨eq_singleton_of_nodup (nodup_applyUpdate hnd) hmem, fun p hp => ?_⟩
-        obtain ⟨hd, hh, ha⟩ := hcov p hp
-        obtain ⟨f, hfm, hfa⟩ := filtered_above hw hh
-        exact anc_trans ha (Anc.step (mem_of_sameSet_left hss hfm) hfa)
-      · simp at hr
+      rcases hall hd hh with rfl | ho
+      · exact ha
+      · exact anc_trans ha (hanc hd ho)
+
+/-- the machine, running `resolve_op_heads` in one process while nobody else moves (all others
+    finished or crashed, lock free), performs exactly `resolveOutcome`: the tie between the
+    small-step model the driver runs and `quiescent_single_head` -/
+theorem resolve_alone {G : Dag} (w : Bool) (s : OState) (pid : Nat) (p : Proc Nat OInstr Nat)
+    (new r : Nat) (hs' : List Nat)
+    (hp : s.procs[pid]? = some p) (hidle : p.instrs = []) (hlock : s.lock = none)
+    (hr : resolveOutcome G s.heads new = some (r, hs')) :
+    ∃ es t, run w (opClient true G) s (.start pid progResolve :: es) = some t ∧ t.heads = hs'
+      ∧ (∀ x ∈ t.pub, x ∈ s.pub ∨ x = r) ∧ ∃ q, t.procs[pid]? = some q ∧ q.loc = r ∧ q.instrs = [] := by
+  have hstart : apply w (opClient true G) s (.start pid progResolve) = some
+      { s with procs := s.procs.set pid { loc := p.loc, instrs := [.client (.read false)] } } := by
+    simp [apply, hp, hidle, progResolve]
+  have hp1 := getElem?_set_self_of_some (a := ({ loc := p.loc, instrs := [.client (.read false)] } : Proc Nat OInstr Nat)) hp
+  let s1 : OState := { s with procs := s.procs.set pid { loc := p.loc, instrs := [.client (.read false)] } }
+  rcases hheads : s.heads with _ | ⟨a, _ | ⟨b, tl⟩⟩
+  · simp [resolveOutcome, hheads] at hr
+  · -- one head: the unlocked read returns it
+    simp only [resolveOutcome, hheads, Option.some.injEq, Prod.mk.injEq] at hr
+    obtain ⟨e1, e2⟩ := hr
+    subst e1; subst e2
+    let s2 : OState := { s1 with procs := s1.procs.set pid { loc := a, instrs := [] } }
+    have h12 : apply w (opClient true G) s1 (.step pid []) = some s2 := by
+      simp only [apply, stepProc, s1, hp1, opClient, expand, hheads, mkProc, List.append_nil, s2]
+      simp [releaseIfDone, hlock]
+    refine ⟨[.step pid []], s2, ?_, hheads, fun x hx => Or.inl hx, ?_⟩
+    · rw [run_cons_some _ hstart, run_cons_some _ h12]; rfl
+    · exact ⟨_, getElem?_set_self_of_some hp1, rfl, rfl⟩
+  · -- several heads: read, lock, read under the lock, update
+    simp only [resolveOutcome, hheads] at hr
+    split at hr
+    · simp at hr
+    · rename_i t olds hpl
+      simp only [Option.some.injEq, Prod.mk.injEq] at hr
+      obtain ⟨e1, e2⟩ := hr
+      subst e1; subst e2
+      have hexp1 : expand true G (.read false) [] s.heads p.loc = some (p.loc, [.lock, .client (.read true)]) := by
+        simp [expand, hheads]
+      have hexp2 : expand true G (.read true) [new] s.heads p.loc = some (t, update true t olds) := by
+        simp [expand, hheads, hpl]
+      let s2 : OState := { s1 with procs := s1.procs.set pid { loc := p.loc, instrs := [.lock, .client (.read true)] } }
+      let s3 : OState := { s2 with procs := s2.procs.set pid { loc := p.loc, instrs := [.client (.read true)] },
+                                   lock := some pid }
+      let s4 : OState := { s3 with procs := s3.procs.set pid { loc := t, instrs := update true t olds } }
+      have hp2 := getElem?_set_self_of_some (a := ({ loc := p.loc, instrs := [.lock, .client (.read true)] } : Proc Nat OInstr Nat)) hp1
+      have hp3 := getElem?_set_self_of_some (a := ({ loc := p.loc, instrs := [.client (.read true)] } : Proc Nat OInstr Nat)) hp2
+      have hp4 := getElem?_set_self_of_some (a := ({ loc := t, instrs := update true t olds } : Proc Nat OInstr Nat)) hp3
+      have h12 : apply w (opClient true G) s1 (.step pid []) = some s2 := by
+        simp only [apply, stepProc, s1, hp1, opClient, hexp1, mkProc, List.append_nil, s2]
+        simp [releaseIfDone, hlock]
+      have h23 : apply w (opClient true G) s2 (.step pid []) = some s3 := by
+        simp only [apply, stepProc, s2, s1, hp2, hlock, s3, mkProc]
+        simp [releaseIfDone]
+      have h34 : apply w (opClient true G) s3 (.step pid [new]) = some s4 := by
+        simp only [apply, stepProc, s3, s2, s1, hp3, opClient, hexp2, mkProc, List.append_nil, s4]
+        simp [releaseIfDone, update]
+      obtain ⟨u, hrun, hh, hpub, q, hq, hqi, hql⟩ := run_update (w := w) (a := true) (G := G) (pid := pid) s4
+        { loc := t, instrs := update true t olds } t (olds.map fun o => (true, o)) [] hp4
+        (by simp [update])
+      refine ⟨.step pid [] :: .step pid [] :: .step pid [new] :: .step pid [] ::
+        ((pending t (olds.map fun o => (true, o))).map fun o => Event.step pid [o]), u, ?_, ?_, ?_, ?_⟩
+      · rw [run_cons_some _ hstart, run_cons_some _ h12, run_cons_some _ h23, run_cons_some _ h34]
+        exact hrun
+      · rw [hh, ← hheads]
+      · intro x hx
+        rw [hpub] at hx
+        simp only [List.mem_cons] at hx
+        rcases hx with rfl | hx
+        · exact Or.inr rfl
+        · exact Or.inl hx
+      · exact ⟨q, hq, hql, hqi⟩
+
+/-- **quiescent_single_head, operationally**: from any reachable state in which process `pid` is
+    idle and the lock is free (everybody else has finished or crashed — their remaining
+    instructions simply never run), letting `pid` run `resolve_op_heads` alone ends with exactly one
+    head `r`, which it returns and which descends from every published operation.  `hr` says the
+    resolve can complete: if several heads survive the filter, the merge operation `new` the resolver
+    writes has exactly those heads as parents. -/
+theorem quiescent_single_head_reachable {G : Dag} (hw : WF G) (w : Bool) (np : Nat) (es0 : List OEvent)
+    (s : OState) (hv : ∀ e ∈ es0, ValidEvent G e) (h0 : run w (opClient true G) (s0 np) es0 = some s)
+    (pid : Nat) (p : Proc Nat OInstr Nat) (hp : s.procs[pid]? = some p) (hidle : p.instrs = [])
+    (hlock : s.lock = none) (new r : Nat) (hs' : List Nat)
+    (hr : resolveOutcome G s.heads new = some (r, hs')) :
+    ∃ es t, run w (opClient true G) s (.start pid progResolve :: es) = some t ∧ t.heads = [r]
+      ∧ (∀ x ∈ t.pub, Anc G x r) ∧ ∃ q, t.procs[pid]? = some q ∧ q.loc = r := by
+  have hcov := (reader_sees_head hw w np es0 s hv h0).2
+  have hnd : s.heads.Nodup := nodup_heads_run (by simp [s0, init]) h0
+  obtain ⟨hsingle, hall⟩ := quiescent_single_head hw hnd hcov hr
+  obtain ⟨es, t, hrun, hh, hpub, q, hq, hql, _⟩ := resolve_alone w s pid p new r hs' hp hidle hlock hr
+  refine ⟨es, t, hrun, by rw [hh, hsingle], ?_, q, hq, hql⟩
+  intro x hx
+  rcases hpub x hx with hx | rfl
+  · exact hall x hx
+  · exact Anc.refl _
 
 /-! ### the order matters: regression sentinel -/
 
